@@ -269,9 +269,10 @@ def pred_format_indented_file_level_comment(y, ry):
 
 
 def pred_format_block_comment_before_decl(y, ry):
-    """(not a recorded finding) at file level a block comment is followed on the same line by a
-    declaration other than a token list (the formatter asks for a line break before a declaration
-    that does not start its line, but a token list is not a `Decl` for it)"""
+    """at file level a block comment is followed on the same line (possibly after token lists, which
+    are not a `Decl` for the formatter) by a declaration: the formatter only asks for a line break
+    before a declaration once it has seen white space on that line, and it is the formatter itself
+    that puts a blank after the comment"""
     if status_of(ry) != 'ok' or not isinstance(ry['cst'], list):
         return False
     top = [n for n in ry['cst'] if n[0] == 1]
@@ -279,10 +280,18 @@ def pred_format_block_comment_before_decl(y, ry):
     for i, n in enumerate(top):
         if n[1] == 'token' and n[2] == 'BlockComment':
             j = i + 1
-            while j < len(top) and top[j][1] == 'token' and top[j][2] == 'Whitespace':
+            prev_end = n[4]
+            while j < len(top):
+                m = top[j]
+                if b'\n' in b[prev_end:m[3]]:
+                    break
+                if m[1] == 'token' and m[2] == 'Whitespace':
+                    if b'\n' in b[m[3]:m[4]]:
+                        break
+                elif m[1] == 'rule' and m[2] != 'token_list':
+                    return True
+                prev_end = m[4]
                 j += 1
-            if j < len(top) and top[j][1] == 'rule' and top[j][2] != 'token_list' and b'\n' not in b[n[4]:top[j][3]]:
-                return True
     return False
 
 
@@ -940,8 +949,22 @@ def settle(ck, pid, agg, kf, extra_fails=None, valid_only=False):
         except Exception as ex:
             lv.log('witness of %s could not be evaluated: %r' % (e['id'], ex))
             continue
+        if v is None and e['class'] == 'stack_overflow_deep_nesting':
+            # only the real binary (8 MB main stack) shows this one: the witness is replayed through `llw -c`
+            import tempfile
+            d = tempfile.mkdtemp(prefix='lv_d22_')
+            try:
+                code, err = cli_check_case((os.path.join(d, 'w'), e['witness']['text']))
+            finally:
+                import shutil
+                shutil.rmtree(d, ignore_errors=True)
+            if code not in (0, 1) and 'overflowed its stack' in err:
+                ck.known.append('%s: %s: `llw -c` aborts with a stack overflow on a grammar with %d nested brackets'
+                                % (e['id'], e['class'], e['witness']['text'].count('(')))
+            continue
         if v is not None and e['class'] in v['classes']:
-            ck.known.append('%s: %s on %r: %s' % (e['id'], e['class'], e['witness']['text'], v['what'][:300]))
+            w = e['witness']['text']
+            ck.known.append('%s: %s on %r: %s' % (e['id'], e['class'], w if len(w) < 120 else w[:60] + '…' + w[-30:], v['what'][:300]))
         elif v is not None:
             lv.log('witness of %s fails but outside its class: %s' % (e['id'], v['what']))
     return {'failing_cases': total, 'attributed_to_known_findings': dict(kf.hits), 'unattributed_failing_cases': total - attributed,
